@@ -964,8 +964,9 @@ def classify(what, src, kind, toks, r, v, i, rep_meta, rep_res):
     if what == "rowan":
         if v["ir"] == "ok" and v["rowan"] == "err":
             rr = repaired("uplus_a")
-            if rr and "ok" in rr["ir"] and rr["ir"]["ok"] == strip_uplus(r["ir"]["ok"]) and \
-                    rr["ir"]["ok"] != r["ir"]["ok"]:
+            # (modulo operator grouping: with the `+` gone, ir regroups a following * / % chain)
+            if rr and "ok" in rr["ir"] and rr["ir"]["ok"] != r["ir"]["ok"] and \
+                    opseq(flat_index(rr["ir"]["ok"])) == opseq(flat_index(strip_uplus(r["ir"]["ok"]))):
                 if rr["rowan"].get("errors") == 0:
                     return K_ROWAN_UPLUS
                 if "parser.rs:855" in rr["rowan"].get("panic", "") and import_nonstring(toks):
@@ -1015,6 +1016,58 @@ def _corpus_known():
 CORPUS_KNOWN = _corpus_known()
 
 
+# ------------------------------------------------------------------ part C: literal decoding
+# (source, value the Jsonnet specification assigns).  Written by hand from the specification:
+# escapes \" \' \\ \/ \b \f \n \r \t \uXXXX (UTF-16 surrogate pairs combine), verbatim strings
+# double their quote, a text block strips the first line's indentation from every line and
+# `|||-` drops the final newline; `_` in numbers is a digit separator.
+def _f(x):
+    return ["n", str(core.float_to_bits(x))]
+
+
+LITERAL_SPEC = [
+    (r'"a\\b"', ["s", "a\\b"]), (r'"\""', ["s", '"']), (r"'\''", ["s", "'"]), (r'"\'"', ["s", "'"]),
+    (r'"\b\f\n\r\t"', ["s", "\b\f\n\r\t"]), (r'"\u0041\u00e9\u4e2d"', ["s", "A\u00e9\u4e2d"]),
+    (r'"\ud83d\ude00"', ["s", "\U0001F600"]), (r'"\u0000x"', ["s", "\x00x"]), (r'"\uABCD"', ["s", "\uabcd"]),
+    (r'"\uabcd"', ["s", "\uabcd"]), ('"x\ny"', ["s", "x\ny"]), ("'it''s'", None), ('"\t"', ["s", "\t"]),
+    ('@"a""b"', ["s", 'a"b']), ("@'a''b'", ["s", "a'b"]), ('@"a\\nb"', ["s", "a\\nb"]), ("@'\\'", ["s", "\\"]),
+    ('@"a\nb"', ["s", "a\nb"]), ('@""""', ["s", '"']), ("@''", ["s", ""]), ('@"\'\'"', ["s", "''"]),
+    ("|||\n  a\n|||", ["s", "a\n"]), ("|||\n  a\n  b\n|||", ["s", "a\nb\n"]),
+    ("|||\n  a\n\n  b\n|||", ["s", "a\n\nb\n"]), ("|||\n\n  a\n|||", ["s", "\na\n"]),
+    ("|||\n  a\n   b\n|||", ["s", "a\n b\n"]), ("|||\n\ta\n\tb\n|||", ["s", "a\nb\n"]),
+    ("|||-\n  a\n|||", ["s", "a"]), ("|||-\n  a\n  b\n|||", ["s", "a\nb"]), ("|||-\n  a\n\n|||", ["s", "a\n"]),
+    ("|||\n    a\n  |||", ["s", "a\n"]), ("|||\n  a\n |||", ["s", "a\n"]), ("|||   \n  a\n|||", ["s", "a\n"]),
+    ("|||\n  a|||\n|||", ["s", "a|||\n"]), ("|||\n  a\\n\n|||", ["s", "a\\n\n"]), ("|||\n  a\n  \n|||", ["s", "a\n\n"]),
+    ("|||\n  \u00e9\u4e2d\n|||", ["s", "\u00e9\u4e2d\n"]), ("|||\n \ta\n \tb\n|||", ["s", "a\nb\n"]),
+    ("0", _f(0.0)), ("1", _f(1.0)), ("10", _f(10.0)), ("1_000", _f(1000.0)), ("1_000.000_1", _f(1000.0001)),
+    ("1_0e1_0", _f(1e11)), ("1.5", _f(1.5)), ("0.25", _f(0.25)), ("1e3", _f(1000.0)), ("1E3", _f(1000.0)),
+    ("1e+3", _f(1000.0)), ("25e-2", _f(0.25)), ("1.5e0", _f(1.5)), ("0.1", _f(0.1)), ("0e0", _f(0.0)),
+    ("1e05", _f(1e5)), ("9007199254740993", _f(9007199254740992.0)), ("1.7976931348623157e308", _f(1.7976931348623157e308)),
+    ("4.9e-324", _f(5e-324)), ("123456789012345678901234567890", _f(1.2345678901234568e29)), ("1e-400", _f(0.0)),
+]
+
+
+def part_c(run, binary, failures):
+    cases = [(s, e) for s, e in LITERAL_SPEC if e is not None]
+    res = parse_batch(binary, [s for s, _ in cases])
+    for (src, exp), r in zip(cases, res):
+        run.count("C:literal")
+        run.note_case("C:" + src, True)
+        for who in ("ir", "peg"):
+            got = r[who].get("ok")
+            if got != exp:
+                failures.append({"case": {"source": src, "part": "C"}, "parser": who, "what": "literal",
+                                 "summary": f"C06 {who}-parser decodes the literal {src!r} to {json.dumps(got)[:120]}, "
+                                            f"the specification says {json.dumps(exp)[:120]}",
+                                 "expected": exp, "got": r[who]})
+        if r["rowan"].get("errors") != 0:
+            failures.append({"case": {"source": src, "part": "C"}, "parser": "rowan", "what": "literal",
+                             "summary": f"C06 rowan-parser reports an error for the valid literal {src!r}",
+                             "expected": "no error", "got": r["rowan"]})
+    if run.samples is not None and len(run.samples) < 12:
+        run.samples.append({"literal": cases[5][0], "decoded": cases[5][1]})
+
+
 # ------------------------------------------------------------------ the check
 def check(run, terrs):
     proofs_ok, detail = core.check_property_file(run, "C06")
@@ -1025,6 +1078,7 @@ def check(run, terrs):
     failures, model_diffs = [], []
     part_a(run, binary, failures, model_diffs)
     part_b(run, binary, failures)
+    part_c(run, binary, failures)
     if os.environ.get("C06_EXPLORE"):
         explore(failures)
     run.trusted = TRUSTED
